@@ -32,6 +32,7 @@ type Gen struct {
 	constGlob  map[string]*ssa.Const
 	nonNilGlob map[string]bool // maps made in init and never reassigned
 	axiomSeen map[string]bool
+	renames   map[string]map[string]string // function -> name used by the contracts -> current name (renamed locals)
 }
 
 func LoadProgram(repo string) (*Gen, error) {
